@@ -18,7 +18,8 @@ var runners = map[string]eng.Runner{
 	"C05": wire.C05,
 	"C06": wire.C06,
 	"C07": wire.C07,
-	"C16": wire.C16Read,
+	"C08": wire.C08,
+	"C16": wire.C16,
 }
 
 // Find returns the runnable spec of a property.
